@@ -6,6 +6,15 @@ var _ = gosym.Options{}
 
 var props = []PropSpec{
 	{
+		ID: "C10", Level: "other",
+		Explanation: "bounded symbolic execution of Core.Run / VM.Wait / interpreter.Execute with a context under harness control whose cancellation instant (the poll at which Done() becomes ready) is a fork variable; goroutines, channels and the RWMutex of VM.Wait are executed by the engine's cooperative scheduler; a loop that never polls shows up as an exceeded step bound (termination obligation), replayed natively under a wall-clock timeout",
+		Harnesses: []HarnessSpec{
+			{Pkg: "homescript", Func: "VerifHarness_Cancel", Quick: map[string]int{"P": 6}, Thor: map[string]int{"P": 30}, Require: []string{"returned"},
+				Opts: gosym.Options{MaxSteps: 4000000, BoundIsViolation: true},
+				What: "7 programs (empty/while/call/try/nested infinite loops, a finite loop, a spawned infinite core) x 2 back ends x every cancellation poll 0..P: termination interrupt (or own outcome), bounded polls after the flip, no host crash, no core left running or blocked"},
+		},
+	},
+	{
 		ID: "C09", Level: "other",
 		Explanation: "bounded symbolic execution of compile + Core.Run / interpreter.callFunc with the configured limits as solver variables (the code only compares against them, so the solver finds the boundary values) and the recursion depth as a symbolic host input; outcomes are asserted to be completion with unchanged output or the corresponding overflow interrupt, never a host crash, plus monotonicity in the limit and equal behaviour for 1 and 4 loop iterations",
 		Harnesses: []HarnessSpec{
